@@ -139,6 +139,13 @@ func cmdCheck(args []string) int {
 		seed, _ = strconv.Atoi(s)
 	}
 	root := "/verif"
+	if os.Getenv("GOVC_NOEVIDENCE") != "" {
+		// selftest runs (seeded changes on a scratch copy) must not overwrite the evidence of the real tree
+		if d, err := os.MkdirTemp("", "govc-selftest-out"); err == nil {
+			root = d
+			defer os.RemoveAll(d)
+		}
+	}
 	t0 := time.Now()
 	w, err := loadWorld(repoDir(), nil)
 	if err != nil {
@@ -201,7 +208,7 @@ func cmdCheck(args []string) int {
 		}
 	}
 	sort.Slice(results, func(i, j int) bool { return results[i].Unit.Name < results[j].Unit.Name })
-	findings := loadFindings(filepath.Join(root, "known_findings.txt"))
+	findings := loadFindings("/verif/known_findings.txt")
 	known := map[string]finding{}
 	for _, f := range findings {
 		if f.Kind == "finding" && f.Property == prop {
